@@ -115,6 +115,17 @@ def run_config(ctx, case, npts=None):
             arr[...] = arr[::-1].copy()
         if len(tr.CALLER_ARRAYS) > 1000:
             tr.CALLER_ARRAYS.clear()
+        # meanwhile the caller asks the factory for another transform of the same class
+        # and options with other parameter values (one per site, say), and uses it
+        if via == "get_transform" and int(case.get("seed", 0)) % 2 == 0:
+            try:
+                _, opar, _ = tr.gen_config(np.random.default_rng(int(case["seed"]) + 3),
+                                           name, int(case["seed"]) % 89)
+                t_other, _ = tr.make(name, ctor, opar)
+                call(t_other.forward, x.copy())
+                ctx.tag("factory-called-again-in-between")
+            except Exception:
+                pass
         xb = np.asarray(call(t.backward, y.copy()), dtype=float)
         yb = np.asarray(call(t.forward, xb.copy()), dtype=float)
     except Exception as e:
